@@ -76,6 +76,44 @@ def nontrivial(sc: dict, obs: dict) -> bool:
     return workers_used >= 2 and remote >= 1
 
 
+# ------------------------------------------------ real processes (procnet)
+PROC_BUDGET = {'quick': 8, 'thorough': 60}
+
+
+def procnet_case(arg: tuple[int, int]) -> dict:
+    """One real runtime (attached, or detached with managers) on private
+    ports, shortened thread switch interval in every runtime process, 6-14
+    trees submitted in waves of concurrent compilations; every returned value
+    is compared with the interpreter of the documented semantics."""
+    from vlib import procnet as P
+    from vlib.simnet import workloads as WL
+    seed, idx = arg
+    rng = core.rng_for(seed, PID, 30, idx)
+    trees, expected = [], []
+    for t in range(int(rng.integers(6, 15))):
+        g = scen.TreeGen(rng, 'p%dt' % t, max_tasks=int(rng.integers(6, 40)), cancel=False, raises=False, nexts=True,
+                         unawaited=bool(rng.random() < 0.5), wide=bool(rng.random() < 0.4))
+        tree = g.tree(int(rng.integers(1, 4)))
+        val, _ = WL.interpret(tree)
+        trees.append(tree)
+        expected.append(val)
+    topo = str(rng.choice(['attached', 'attached', 'detached']))
+    case: dict[str, Any] = {
+        'topology': topo, 'trees': trees, 'wave': int(rng.choice([1, 2, 4, 8])), 'reverse_fetch': bool(rng.random() < 0.5),
+        'env': {'VERIF_INJECT': '1', 'VERIF_MON': 'switch', 'VERIF_SWITCHINT': str(rng.choice(['0.005', '0.0001', '0.00001', '0.000001']))},
+    }
+    if topo == 'attached':
+        case['workers'] = int(rng.integers(2, 5))
+    else:
+        case['managers'] = [[2], [1, 1], [2, 2], [3, 1]][int(rng.integers(4))]
+    rec = P.stress_case(case, expected)
+    rec['idx'] = idx
+    rec['case'] = {k: v for k, v in case.items() if k != 'trees'}
+    rec['case']['ntrees'] = len(trees)
+    rec['tasks'] = sum(scen.count_tasks(t) for t in trees)
+    return rec
+
+
 def _points(b: dict) -> list[dict]:
     return driver.systematic_points(b)
 
@@ -83,6 +121,16 @@ def _points(b: dict) -> list[dict]:
 def main(tier: str, seed: int, replay: str | None = None) -> int:
     run = core.Run(PID, tier, seed)
     if replay:
+        import json
+        w = json.load(open(replay)).get('witness', {})
+        if w.get('family') == 'procnet':
+            rec = procnet_case((w['procnet']['seed'], w['procnet']['idx']))
+            run.case('procnet-replay')
+            run.case('procnet-replay-pad')
+            for x in rec['witness']:
+                run.violation(dict(x, family='procnet', procnet=w['procnet']))
+            print('replayed real-process case: returned=%s correct=%s witnesses=%s' % (rec['returned'], rec['correct'], [x['kind'] for x in rec['witness']]))
+            return run.finish(rule='replay of one real-process stress case (timing is not reproducible; the case is)', assumptions=[])
         return driver.replay_main(run, replay, judge, nontrivial)
     n_rand, n_line, n_base, max_pts = BUDGET[tier]
     scs = [(make_scenario(seed, i, 'rand'), 'rand') for i in range(n_rand)]
@@ -95,9 +143,37 @@ def main(tier: str, seed: int, replay: str | None = None) -> int:
     for (sc, fam), obs in zip(scs, results):
         acc.add(sc, obs, fam, judge, nontrivial)
     acc.finish_extra()
+    n_proc = PROC_BUDGET[tier]
+    precs = core.pmap(procnet_case, [(seed, i) for i in range(n_proc)], workers=4)
+    for rec in precs:
+        run.case(core.sig_of(('procnet', rec['idx'], rec['case'])), nontrivial=rec['correct'] >= 3,
+                 sample={'family': 'procnet', 'case': rec['case'], 'returned': rec['returned'], 'correct': rec['correct'], 'events': rec['events'][:6]} if rec['idx'] < 2 else None)
+        run.count('executions:procnet')
+        run.count('procnet_topology:' + rec['case']['topology'])
+        run.count('procnet_switch_interval:' + rec['case']['env']['VERIF_SWITCHINT'])
+        run.count('procnet_results_compared', rec['returned'])
+        run.count('procnet_results_correct', rec['correct'])
+        run.count('procnet_task_bodies', rec['tasks'])
+        want = float(rec['case']['env']['VERIF_SWITCHINT'])
+        seen = rec.get('switch_interval_seen')
+        if isinstance(seen, float) and abs(seen - want) <= 0.2 * want + 1e-9:
+            run.count('procnet_switch_interval_confirmed_in_worker')
+        if rec.get('inconclusive'):
+            run.count('procnet_inconclusive')
+            run.extra.setdefault('procnet_inconclusive_reasons', []).append('case %d: %s' % (rec['idx'], rec['inconclusive']))
+        for x in rec['witness']:
+            x = dict(x)
+            x['family'] = 'procnet'
+            x['procnet'] = {'seed': seed, 'idx': rec['idx']}
+            x['case'] = rec['case']
+            run.violation(x)
+    if run.counters.get('procnet_inconclusive', 0) > 0.3 * n_proc:
+        run.inconclusive_because('%d of %d real-process cases were inconclusive' % (run.counters['procnet_inconclusive'], n_proc))
+    run.require('procnet_results_compared', 10)
+    run.require('procnet_switch_interval_confirmed_in_worker', 1)
     for c in ('deliveries', 'task_bodies_run', 'awaits_checked', 'preemptions', 'executions:systematic'):
         run.require(c, 1)
     return run.finish(
-        rule='scenario = (task tree from the grammar submit/map/await/next/unawaited[/raise], topology attached 1-4 workers or detached 1-3 managers x 1-3 workers (+nested), 1-3 clients, scheduler policy, seed); families: random delivery orders; random line-level pre-emption (budget<=3); systematic single pre-emption at every (thread,function,line,occurrence<=2) of the worker await/result/step/submit paths of base runs with a short and an unbounded hold. distinct = (tree shapes, topology, delivery-order hash, pre-emption points); non-trivial = >=2 workers executed bodies and >=1 result was routed to another worker',
+        rule='scenario = (task tree from the grammar submit/map/await/next/unawaited[/raise], topology attached 1-4 workers or detached 1-3 managers x 1-3 workers (+nested), 1-3 clients, scheduler policy, seed); families: random delivery orders; random line-level pre-emption (budget<=3); systematic single pre-emption at every (thread,function,line,occurrence<=2) of the worker await/result/step/submit paths of base runs with a short and an unbounded hold. distinct = (tree shapes, topology, delivery-order hash, pre-emption points); non-trivial = >=2 workers executed bodies and >=1 result was routed to another worker. Real-process family (procnet): the same tree grammar on real bqskit.runtime processes over real sockets (attached 2-4 workers, or detached managers), 6-14 compilations per runtime in waves of 1-8 concurrent ones, thread switch interval 5ms..1us in every runtime process; every returned value compared with the interpreter; hang = call not returned AND all processes asleep with unchanged CPU time',
         assumptions=driver.SIM_ASSUMPTIONS,
     )
